@@ -197,6 +197,36 @@ pub fn exec(sc: &Scenario, st: &mut Stats) -> Option<Violation> {
                     since_restore = 0;
                 }
             }
+            Op::RoundTrip { times, json: true, .. } => {
+                // a human-readable wire format. JSON cannot carry NaN/inf, so a state holding one may fail
+                // to round-trip - that is not judged; but IF it round-trips it must behave identically
+                let ph = phase(count, window, was_reset);
+                let mut done = 0;
+                for _ in 0..(*times).max(1) {
+                    // lossless only if no value had to be written as `null` (NaN/inf become null, and an Option holding
+                    // one would silently come back as None) - those states are skipped, not judged
+                    let back = on(Side::Subject, || node.save_json().ok().filter(|t| !t.contains("null")).and_then(|t| node.load_json(&t).ok()));
+                    match back {
+                        Some(b) => {
+                            node = b;
+                            done += 1;
+                            st.bump("json_roundtrips");
+                        }
+                        None => {
+                            st.bump("json_roundtrips_not_representable_skipped");
+                            break;
+                        }
+                    }
+                }
+                if done > 0 {
+                    let (a, b) = (params_of(node.as_ref()), params_of(shadow.as_ref()));
+                    if a != b {
+                        return Some(viol("params-changed", kind, i, "period/multiplier/Display differ after JSON round-trip".into(), vec![format!("{:?}", b)], vec![format!("{:?}", a)]));
+                    }
+                    restored = Some((ph, last_fault, 9 + (*times).min(3) as u64 * 16));
+                    since_restore = 0;
+                }
+            }
             Op::RoundTrip { times, .. } => {
                 let ph = phase(count, window, was_reset);
                 for _ in 0..(*times).max(1) {
@@ -321,7 +351,7 @@ pub fn generate(rng: &mut Rng, tier: Tier) -> Scenario {
             ops.push(Op::Fork { src: 0, dst: 0 });
         }
         if rng.chance(0.3) {
-            ops.push(Op::RoundTrip { n: 0, times: rng.range(1, 5) as u32 });
+            ops.push(Op::RoundTrip { n: 0, times: rng.range(1, 5) as u32, json: rng.chance(0.3) });
         } else {
             ops.push(Op::Ckpt { n: 0, lost: false });
             if rng.chance(0.3) {
@@ -480,9 +510,9 @@ pub fn run(tier: Tier) -> i32 {
         &total,
         report::EvidenceMeta {
             level: "exploration",
-            rule: "one evaluation = one scenario on a simulated node with a simulated disk (up to 3 checkpoint generations of bincode bytes + feed offset): fault-laden feed, resets, checkpoints (some writes lost), crashes that discard the in-memory instance and restore from the newest durable generation with journal replay (some crashing again mid-replay), chained serialize->deserialize round-trips, then a continuation of at least sum(periods)+2 ticks compared tick by tick with the never-serialized shadow. Sweep: periods 1..=4, checkpoint at every prefix 0..=16 of 3 fixed data patterns, journal lengths 0..=3, with/without reset right before the checkpoint. distinct_nontrivial counts distinct situations (indicator, period bucket, window phase at the checkpoint, restore kind and journal-length class, fault most recently delivered before the checkpoint, input mode, ticks-since-restore class {0,1,<n,=n,>n}) in which an output of a node that really went through the disk was compared; crashes with no durable generation restart from new() and are trivial.",
+            rule: "one evaluation = one scenario on a simulated node with a simulated disk (up to 3 checkpoint generations of bincode bytes + feed offset): fault-laden feed, resets, checkpoints (some writes lost), crashes that discard the in-memory instance and restore from the newest durable generation with journal replay (some crashing again mid-replay), chained serialize->deserialize round-trips (bincode, and serde_json where the state is representable in JSON), then a continuation of at least sum(periods)+2 ticks compared tick by tick with the never-serialized shadow. Sweep: periods 1..=4, checkpoint at every prefix 0..=16 of 3 fixed data patterns, journal lengths 0..=3, with/without reset right before the checkpoint. distinct_nontrivial counts distinct situations (indicator, period bucket, window phase at the checkpoint, restore kind and journal-length class, fault most recently delivered before the checkpoint, input mode, ticks-since-restore class {0,1,<n,=n,>n}) in which an output of a node that really went through the disk was compared; crashes with no durable generation restart from new() and are trivial.",
             assumptions: vec![
-                "bincode 1.3 is the only wire format exercised (JSON cannot carry NaN/inf)".into(),
+                "bincode 1.3 is the wire format for checkpoints; serde_json is exercised by round-trips only and only where it can represent the state (JSON cannot carry NaN/inf): a failed JSON round-trip is skipped and counted, a successful one must preserve behaviour".into(),
                 "torn/bit-flipped checkpoint bytes are deliberately not injected: the property promises nothing about corrupted input to deserialize".into(),
                 "oracle = the same real code that never went through the disk".into(),
             ],
